@@ -10,6 +10,7 @@ import VaxisModel.Lemmas.Sgr
 
 namespace VaxisModel.Props.C18
 open VaxisModel VaxisModel.Model.Sgr VaxisModel.Gen VaxisModel.Spec VaxisModel.Lemmas.Sgr
+open VaxisModel.Model.Color (indexColor rgbColor)
 
 /-- The seven attribute bits of style.go are the single bits 1..7 of a `uint8` (bit 0 is unused). -/
 theorem attr_bits :
@@ -65,5 +66,76 @@ example : (match emuSgr {} [[48], [2], [1], [2]] with | .ok s => s == {} | _ => 
 example : (match parseSGR {} [[58, 2, 1]] with | .ok s => s == {} | _ => false) = true := by decide
 -- the hypothesis is needed: an empty parameter (which the parser never produces) would panic
 example : (match parseSGR {} [[]] with | .error _ => true | _ => false) = true := by decide
+
+/-! ### Producers' range, label coverage, consumers refine the spec -/
+
+/-- **producers_range (EncodeCells).** Every sequence written for a transition into a style with one of
+    the six underline styles is in the explicit, decidable set `emittableLegacy` (`emittable` without
+    the quirk): solo codes, `4:n`, `38/48/58:5:n`, `38/48/58:2:r:g:b` with byte values, and the
+    semicolon forms for 38/48. -/
+theorem producers_range_encodeCells (legacy : Bool) (p n : Style) (hn : n.ulStyle ≤ 5) :
+    ∀ x ∈ encodeDelta legacy p n, emittableLegacy x = true := encodeDelta_range legacy p n hn
+
+/-- **label coverage** (over the regenerated `Gen.SgrCases`): every first parameter in the producers'
+    range has a `case` in cell.go parseSGR, widgets/term sgr and NewStyledString, with the
+    sub-parameter counts the producers use; parseSGR and the emulator also accept the legacy forms. -/
+theorem label_coverage :
+    covers parseCfg = true ∧ coversLegacy parseCfg = true ∧
+    covers emuCfg = true ∧ coversLegacy emuCfg = true ∧
+    covers ssCfg = true := by decide
+
+theorem parseCfg_covers : Covers parseCfg := covers_iff _ (by decide)
+theorem emuCfg_covers : Covers emuCfg := covers_iff _ (by decide)
+theorem parseCfg_legacy : ∀ p, p = 38 ∨ p = 48 → parseCfg.accepts p 1 = true := by
+  intro p hp; rcases hp with rfl | rfl <;> decide
+theorem emuCfg_legacy : ∀ p, p = 38 ∨ p = 48 → emuCfg.accepts p 1 = true := by
+  intro p hp; rcases hp with rfl | rfl <;> decide
+
+/-- **consumer_refines_spec (parseSGR).** On everything a producer can write (legacy forms included)
+    cell.go's parser does not panic and changes the style exactly as `Spec.sgr` changes the pen. -/
+theorem consumer_refines_spec_parseSGR (s : Style) (q : Seq) (hq : emittableLegacy q = true) :
+    ∃ s', parseSGR s q = .ok s' ∧ shown s' = Spec.sgr (shown s) q :=
+  int_refines_legacy parseCfg parseCfg_covers parseCfg_legacy s q hq
+
+/-- **consumer_refines_spec (embedded terminal).** -/
+theorem consumer_refines_spec_emuSgr (s : Style) (q : Seq) (hq : emittableLegacy q = true) :
+    ∃ s', emuSgr s q = .ok s' ∧ shown s' = Spec.sgr (shown s) q :=
+  int_refines_legacy emuCfg emuCfg_covers emuCfg_legacy s q hq
+
+/-- **producers_consumers_agree (parseSGR / embedded terminal).** Both understand every producible
+    sequence identically (and as the spec does); on well-formed styles the resulting styles are equal. -/
+theorem producers_consumers_agree_int (s : Style) (hs : s.wf) (q : Seq) (hq : emittableLegacy q = true) :
+    ∃ s', parseSGR s q = .ok s' ∧ emuSgr s q = .ok s' ∧ shown s' = Spec.sgr (shown s) q := by
+  obtain ⟨s1, h1, e1⟩ := consumer_refines_spec_parseSGR s q hq
+  obtain ⟨s2, h2, e2⟩ := consumer_refines_spec_emuSgr s q hq
+  have w1 := int_wf parseCfg parseCfg_covers parseCfg_legacy s hs q hq s1 h1
+  have w2 := int_wf emuCfg emuCfg_covers emuCfg_legacy s hs q hq s2 h2
+  have : s1 = s2 := shown_inj s1 s2 w1 w2 (e1.trans e2.symm)
+  subst this
+  exact ⟨s1, h1, h2, e1⟩
+
+/-! ### Round trip -/
+
+/-- **roundtrip_cells (EncodeCells / ParseStyledString).** For every sequence of cells with well-formed
+    styles (graphemes are opaque self-delimiting tokens: A-concat), with or without the legacy quirk:
+    parsing the encoded token sequence returns exactly the cells. By induction on the cell list with
+    the pen as invariant. -/
+theorem roundtrip_cells {γ : Type} (legacy : Bool) (cs : List (Cell γ)) (hcs : ∀ c ∈ cs, c.st.wf) :
+    parseStyled (encodeCells legacy cs) = .ok cs :=
+  roundtrip_generic parseSGR (encodeDelta legacy)
+    (fun s n hs hn => delta_roundtrip parseCfg parseCfg_covers parseCfg_legacy legacy s n hs hn)
+    (fun s => ⟨_, int_empty parseCfg s parseCfg_covers.zero⟩) cs {} wf_default hcs
+
+/-- The same encoded string fed to the embedded terminal cell by cell gives the same cells. -/
+theorem roundtrip_cells_emu {γ : Type} (legacy : Bool) (cs : List (Cell γ)) (hcs : ∀ c ∈ cs, c.st.wf) :
+    parseToks emuSgr {} (encodeCells legacy cs) = .ok cs :=
+  roundtrip_generic emuSgr (encodeDelta legacy)
+    (fun s n hs hn => delta_roundtrip emuCfg emuCfg_covers emuCfg_legacy legacy s n hs hn)
+    (fun s => ⟨_, int_empty emuCfg s emuCfg_covers.zero⟩) cs {} wf_default hcs
+
+-- non-vacuity: a well-formed style with every field non-default, and a concrete round trip
+example : Style.wf ⟨indexColor 200, rgbColor 1 2 3, indexColor 7, 3, 254⟩ :=
+  ⟨Or.inr (Or.inl ⟨200, by decide, rfl⟩), Or.inr (Or.inr ⟨1, 2, 3, by decide, by decide, by decide, rfl⟩),
+   Or.inr (Or.inl ⟨7, by decide, rfl⟩), by decide, by decide⟩
 
 end VaxisModel.Props.C18
